@@ -228,6 +228,7 @@ func runC16(r *core.Run) {
 			}
 			// nothing runnable: tasks wait on timers (cache.Close's closeTimeout) or forever
 			time.Sleep(11 * time.Second)
+			sch.Settle()
 			r.Event("clock", "+11s (idle)")
 			if len(sch.Parked()) == 0 && sch.Live() > 0 {
 				r.Fail("hang", "blocked-forever", "tasks blocked with every harness point released and no context cancelled: %s\nlog tail:\n%s",
@@ -266,13 +267,15 @@ func runC16(r *core.Run) {
 			_ = n
 		case a == len(names):
 			oc := pend[s.Choose("cancelwhich", len(pend))]
-			oc.cancel()
 			oc.done = true
 			r.Fault("ctx-cancel")
 			r.Event("cancel", "context of %s", oc.name)
+			oc.cancel()
+			sch.Settle()
 		default:
 			advanced++
 			time.Sleep(ttl + time.Second)
+			sch.Settle()
 			r.Fault("clock-jump")
 			r.Event("clock", "+%v", ttl+time.Second)
 		}
@@ -291,6 +294,7 @@ func runC16(r *core.Run) {
 					break
 				}
 				time.Sleep(11 * time.Second)
+				sch.Settle()
 				if len(sch.Parked()) == 0 && sch.Live() > 0 {
 					r.Fail("hang", "close-blocked", "cache.Close blocked forever: %s", sch.String())
 				}
